@@ -6,8 +6,10 @@ import (
 	"sync"
 	"time"
 
+	"github.com/tikv/pd/pkg/tsoutil"
 	"verif/harness/lib/etcdx"
 	"verif/harness/lib/ev"
+	"verif/harness/lib/hist"
 )
 
 // slowGrant: the reply of member A's LeaseGrant is delayed at the etcd client boundary (an existing
@@ -83,5 +85,160 @@ func slowGrant(r *ev.Run, e *etcdx.Etcd, seed int64) {
 	wg.Wait()
 	if done == 0 {
 		r.Inconclusive("slow-grant phase: no round reached a successor's campaign")
+	}
+}
+
+// queuedBehindSave: member A (no keep-alive: its lease runs out) resets its timestamp to a far
+// target; the acknowledgement of the window transaction of that reset is held back at the etcd
+// client boundary (applied in etcd, reply in flight). Timestamp requests issued to A after the
+// transaction was applied wait for whatever A holds during the save. Meanwhile A's lease expires,
+// member B wins a campaign, initialises and serves; only then is the reply released. A request
+// that was issued after the save was applied and is answered successfully after the release was
+// granted by a member whose lease had long expired (B's campaign was acknowledged several etcd
+// round trips and an explicit pause before the release). The verdict is this order of events.
+func queuedBehindSave(r *ev.Run, e *etcdx.Etcd, seed int64) {
+	rounds := r.Pick(2, 6)
+	var wg sync.WaitGroup
+	var mu sync.Mutex
+	judged := 0
+	for i := 0; i < rounds; i++ {
+		wg.Add(1)
+		go func(i int) {
+			defer wg.Done()
+			rng := rand.New(rand.NewSource(seed + int64(i)))
+			x, err := newRun(r, e, rng, fmt.Sprintf("/c03/q%02d_%04d_", r.Shard, i), 2)
+			if err != nil {
+				r.Inconclusive("world: %v", err)
+				return
+			}
+			defer x.w.Close()
+			x.w.Lease = int64(2 + i%2)
+			a, b := x.w.Members[0], x.w.Members[1]
+			if err := a.Campaign(false); err != nil {
+				r.Count("queued_campaign_failed", 1)
+				return
+			}
+			if err := a.Alloc.Initialize(0); err != nil {
+				r.Count("queued_campaign_failed", 1)
+				return
+			}
+			tsKey := x.w.TimestampKey()
+			applied := make(chan struct{})
+			release := make(chan struct{})
+			var once sync.Once
+			var tApp, tRel int64
+			a.Cl.After = func(rpc *etcdx.RPC) {
+				if rpc.Method != "Txn" || !rpc.Write || rpc.Err != "" {
+					return
+				}
+				hit := false
+				for _, k := range rpc.Keys {
+					if k == tsKey {
+						hit = true
+					}
+				}
+				if !hit {
+					return
+				}
+				mine := false
+				once.Do(func() { mine = true })
+				if !mine {
+					return
+				}
+				tApp = hist.Tick()
+				close(applied)
+				select {
+				case <-release:
+				case <-time.After(60 * time.Second):
+				}
+			}
+			setDone := make(chan error, 1)
+			go func() {
+				setDone <- a.Alloc.SetTSO(tsoutil.GenerateTS(tsoutil.GenerateTimestamp(time.Now().Add(10*time.Minute), 0)))
+			}()
+			select {
+			case <-applied:
+			case err := <-setDone:
+				_ = err
+				r.Count("queued_reset_did_not_save", 1)
+				a.Cl.After = nil
+				return
+			case <-time.After(20 * time.Second):
+				r.Count("queued_reset_did_not_save", 1)
+				a.Cl.After = nil
+				return
+			}
+			// requests issued after the save was applied
+			type res struct {
+				call, ret int64
+				err       error
+				phys, log int64
+			}
+			nreq := 3
+			results := make(chan res, nreq)
+			for k := 0; k < nreq; k++ {
+				go func() {
+					c := hist.Tick()
+					ts, err := x.w.TSO(0, a, 1, 0)
+					results <- res{c, hist.Tick(), err, ts.Physical, ts.Logical}
+				}()
+			}
+			// A's lease runs out, B wins, initialises and serves
+			won := false
+			for k := 0; k < 1200 && !won; k++ {
+				if b.Campaign(true) == nil {
+					won = true
+				} else {
+					time.Sleep(10 * time.Millisecond)
+				}
+			}
+			var tB int64
+			served := false
+			if won {
+				tB = hist.Tick()
+				if b.Alloc.Initialize(0) == nil {
+					if _, err := x.w.TSO(1, b, 1, 0); err == nil {
+						served = true
+					}
+				}
+				time.Sleep(300 * time.Millisecond)
+			}
+			tRel = hist.Tick()
+			close(release)
+			<-setDone
+			a.Cl.After = nil
+			var rs []res
+			for k := 0; k < nreq; k++ {
+				rs = append(rs, <-results)
+			}
+			if !won || !served {
+				r.Count("queued_no_successor", 1)
+				return
+			}
+			mu.Lock()
+			judged++
+			mu.Unlock()
+			r.Count("queued_behind_save_rounds", 1)
+			r.Eval(1)
+			r.Distinct(fmt.Sprintf("queued-behind-save|lease=%d", x.w.Lease))
+			for _, q := range rs {
+				if q.call > tApp && q.ret > tRel {
+					r.Count("queued_requests_answered_after_release", 1)
+					if q.err == nil {
+						r.Violation("timestamp-granted-after-lease-expired:queued-behind-window-save",
+							fmt.Sprintf("member a answered a timestamp request (%d,%d) that was issued while its reset was saving the window and answered after the save's reply was released; by then a's lease had expired and member b had won a campaign (tick %d), initialised and served, before the release (tick %d)", q.phys, q.log, tB, tRel),
+							map[string]interface{}{"lease_s": x.w.Lease, "round": i, "root": x.w.Root, "save_applied_tick": tApp, "b_campaign_tick": tB, "release_tick": tRel, "request_call": q.call, "request_ret": q.ret})
+						break
+					}
+				} else {
+					r.Count("queued_requests_answered_before_release", 1)
+				}
+			}
+			b.Resign()
+		}(i)
+	}
+	wg.Wait()
+	if judged == 0 {
+		r.Inconclusive("queued-behind-save phase: no round reached a serving successor")
 	}
 }
